@@ -180,7 +180,10 @@ Consider(w) ==
           /\ earliest' = IF Head(queue[w]).idx < earliest THEN Head(queue[w]).idx ELSE earliest
           /\ wpc' = [wpc EXCEPT ![w] = "applied"]
           /\ queue' = [queue EXCEPT ![w] = Tail(@)]
-          /\ UNCHANGED <<mem, stack>>
+          \* a refused name is noticed before anything is loaded; the other error (a rename whose new name cannot be
+          \* loaded) comes after the file to patch has been loaded - loaded, not changed
+          /\ mem' = [mem EXCEPT ![w] = IF Head(queue[w]).fp.ren THEN GetOrLoad(@, ChooseTarget(@, Head(queue[w]).fp)) ELSE @]
+          /\ UNCHANGED stack
      ELSE LET e == Head(queue[w])
               r == ApplyOne(mem[w], e.idx, e.fp, e.rev)
           IN /\ mem' = [mem EXCEPT ![w] = r.mem]
